@@ -610,3 +610,215 @@ def skeleton_sample():
     missing = [p for p in P.gen_missing_content_programs() if "reflink" not in p.name][::3][:6]
     return (held + cd + gen_dangling_link_removal_programs() + gen_linked_bucket_programs() +
             gen_empty_declaration_programs()[::4][:5] + unsized + missing)
+
+
+# ---------------------------------------------------------------------------------------------
+# round 10: declarations naming ANOTHER entry; link targets of awkward sizes; mixed-algorithm declarations;
+# extraction by a key that has been removed fully
+# ---------------------------------------------------------------------------------------------
+
+def gen_foreign_declaration_programs():
+    """C01 by key: a keyed write of D that DECLARES the integrity of another cached entry E (same algorithm).  The commit is
+    rejected; whatever it answers, no checked retrieval by that key ever hands out E's bytes - they were never stored
+    under it."""
+    progs = []
+    i = 0
+    for fl in "sa":
+        for algo in ("sha256", "sha1", "sha512"):
+            E, D = b"the other entry's bytes %d" % i, b"what is written under the key %d" % i
+            k1, k2 = b"fe%d" % i, b"fd%d" % i
+            ops = [w_oneshot("s", algo, k1, E),
+                   f"wopen {fl} c0 W1 {hx(k2)} " + opts_tokens(algo, None, L.sri_of(algo, E), 3, NOMETA, None), f"wwrite W1 {hx(D)}", "wcommit W1"]
+            ci = len(ops) - 1
+            checks = []
+            for f2 in "sa":
+                ops.append(f"read {f2} c0 {hx(k2)}"); checks.append(len(ops) - 1)
+                ops.append(f"copy {f2} c0 {hx(k2)} out/f{f2}"); checks.append(len(ops) - 1)
+            ops.append(f"ropen {fl} c0 R1 {hx(k2)}"); ops.append("dump out")
+            progs.append(Program(f"foreign-declaration-{algo}-{fl}", ops,
+                                 tags={"foreigndecl": checks, "commit": ci, "data": D, "other": E, "both_binaries": i % 2 == 0,
+                                       "variety": ("foreigndecl", algo, fl)}))
+            i += 1
+    return progs
+
+
+def mon_foreign_declaration(rr):
+    out = []
+    t = rr.prog.tags
+    if len(rr.impl) < len(rr.prog.ops):
+        return out
+    for i in t["foreigndecl"]:
+        r = toks(rr.impl[i])
+        name = rr.prog.ops[i].split(" ")[0]
+        if r[0] == "ok" and (name == "copy" or unhx(r[1]) != t["data"]):
+            # (a copy that answers ok is judged by the destination below)
+            if name == "read":
+                out.append(Failure("wrong_bytes", i, "a checked read by key returned bytes that were never stored under that key (the bytes of the "
+                                   "entry whose integrity the writer had DECLARED)", sig={"op": "read", "flavour_tok": rr.prog.ops[i].split(' ')[1]}))
+    files, links, dirs = parse_dump(rr.impl[-1])
+    for p, b in files.items():
+        if b == t["other"]:
+            out.append(Failure("wrong_bytes", len(rr.impl) - 1, f"a checked copy by key left another entry's bytes at {p}", sig={"op": "copy"}))
+    if toks(rr.impl[t["commit"]])[0] == "ok":
+        out.append(Failure("accepted_wrong_integrity", t["commit"], "a commit whose data does not match the declared integrity answered ok",
+                           sig={"op": "wcommit", "api": rr.prog.ops[t["commit"] - 2].split(" ")[1]}))
+    return out
+
+
+def gen_link_size_programs():
+    """Link targets of 0, 1, 2, 7, 8, 9, 10, 16 391 .. 16 394 and 32 777 bytes (the linker reads an 8-byte probe and then
+    16 KiB blocks), linked in one go and through a handle read with buffers that leave one byte over: the address is the
+    digest of the WHOLE target, the recorded size its length, and the key reads it back."""
+    progs = []
+    sizes = [0, 1, 2, 7, 8, 9, 10, 16391, 16392, 16393, 16394, 32777]
+    i = 0
+    for n in sizes:
+        d = bytes((j * 31 + n) % 251 for j in range(n))
+        for fl in "sa":
+            key = b"ls%d%s" % (n, fl.encode())
+            ops = [f"put tgt/t{n}.bin {hx(d)}", f"link_to {fl} c0 {hx(key)} abs:tgt/t{n}.bin"]
+            li = 1
+            ops += [f"read s c0 {hx(key)}", f"metadata a c0 {hx(key)}"]
+            progs.append(Program(f"link-size-{n}-{fl}", ops, tags={"linksize": li, "data": d, "both_binaries": i % 5 == 0, "variety": ("linksize", n, fl)}))
+            i += 1
+    # through a handle, with reads that leave one byte over
+    for n, reads in ((13, [4, 4, 4, 4]), (9, [8, 8]), (3, [1, 1, 1, 1]), (16393, [16384, 16384]), (5, [2, 2])):
+        d = bytes((j * 17 + n) % 253 for j in range(n))
+        for fl in "sa":
+            key = b"lh%d%s" % (n, fl.encode())
+            ops = [f"put tgt/h{n}.bin {hx(d)}", f"lopen_auto {fl} c0 L1 {hx(key)} abs:tgt/h{n}.bin"]
+            for b in reads:
+                ops.append(f"lread L1 {b}")
+            ops.append("lcommit L1"); li = len(ops) - 1
+            ops += [f"read s c0 {hx(key)}", f"metadata a c0 {hx(key)}"]
+            progs.append(Program(f"link-handle-{n}-{fl}", ops, tags={"linksize": li, "data": d, "variety": ("linkhandle", n, fl)}))
+    return progs
+
+
+def mon_link_size(rr):
+    out = []
+    t = rr.prog.tags
+    li, d = t["linksize"], t["data"]
+    if len(rr.impl) < len(rr.prog.ops):
+        return out
+    sig = {"op": rr.prog.ops[li].split(" ")[0], "len": len(d)}
+    res = toks(rr.impl[li])
+    if res[0] != "ok":
+        out.append(Failure("link_failed", li, f"linking a {len(d)}-byte file -> {' '.join(res[:3])}", sig=sig))
+        return out
+    if unhx(res[1]).decode(errors="replace") != L.sri_of("sha256", d):
+        out.append(Failure("wrong_address", li, f"the link's integrity is not the digest of the {len(d)}-byte target", sig=sig))
+    rd = toks(rr.impl[li + 1])
+    if rd[0] != "ok" or unhx(rd[1]) != d:
+        out.append(Failure("wrong_bytes", li + 1, f"the linked key reads {' '.join(rd[:2])[:40]}", sig=sig))
+    m = meta_of_line(rr.impl[li + 2])
+    if not isinstance(m, dict) or m.get("size") != len(d):
+        out.append(Failure("wrong_size_recorded", li + 2, f"the linked entry records size {m.get('size') if isinstance(m, dict) else m}, the target has {len(d)} bytes",
+                           sig=sig))
+    return out
+
+
+def gen_mixed_declaration_programs():
+    """C17 ('data lives at content-v2/<algorithm>/<hex digest>' of the RECORDED integrity): a writer hashing with a weaker
+    algorithm while the declaration lists a stronger one first (right or wrong), and the reverse.  Whatever the commit
+    answers: every record in the index names content that is there - at the address of its strongest hash - with bytes
+    of that digest."""
+    progs = []
+    i = 0
+    d = b"mixed declaration data"
+    for fl in "sa":
+        for walgo, decl, name in (
+                ("sha256", lambda: L.sri_of("sha512", b"something else") + " " + L.sri_of("sha256", d), "strong-wrong-weak-right"),
+                ("sha256", lambda: L.sri_of("sha512", d) + " " + L.sri_of("sha256", d), "both-right-writer-weak"),
+                ("sha512", lambda: L.sri_of("sha512", d) + " " + L.sri_of("sha256", d), "both-right-writer-strong"),
+                ("sha1", lambda: L.sri_of("sha384", b"x") + " " + L.sri_of("sha1", d), "strong-wrong-weak-right-sha1"),
+                ("sha512", lambda: L.sri_of("sha512", d) + " " + L.sri_of("sha1", b"something else"), "strong-right-weak-wrong")):
+            key = b"mx%d" % i
+            ops = [w_oneshot("s", "sha256", b"bystander", b"stays"),
+                   f"wopen {fl} c0 W1 {hx(key)} " + opts_tokens(walgo, None, decl(), 3, NOMETA, None), f"wwrite W1 {hx(d)}", "wcommit W1"]
+            ci = len(ops) - 1
+            ops += [f"metadata s c0 {hx(key)}", f"read {fl} c0 {hx(key)}", "dump c0"]
+            progs.append(Program(f"mixed-declaration-{name}-{fl}", ops, tags={"mixeddecl": ci, "data": d, "both_binaries": i % 3 == 0,
+                                                                               "variety": ("mixeddecl", name, fl)}))
+            i += 1
+    return progs
+
+
+def mon_mixed_declaration(rr):
+    out = []
+    t = rr.prog.tags
+    ci = t["mixeddecl"]
+    if len(rr.impl) < len(rr.prog.ops):
+        return out
+    sig = {"op": "wcommit", "api": rr.prog.ops[ci - 2].split(" ")[1], "shape": rr.prog.name.rsplit("-", 1)[0]}
+    files, links, dirs = parse_dump(rr.impl[-1])
+    for p, b in files.items():
+        if p.startswith("c0/index-v5/"):
+            recs = L.decode_bucket(b)
+            for key in {r["key"] for r in recs}:
+                cur = L.lookup(recs, key)
+                if cur is None:
+                    continue
+                cp = "c0/" + L.content_rel(cur["integrity"])
+                algo = L.sri_parse(cur["integrity"])[0][0]
+                if cp not in files:
+                    out.append(Failure("layout_record_without_content", ci, f"the index maps {key!r} to {cur['integrity'][:30]}… but nothing is at "
+                                       f"content-v2/{algo}/<its hex digest>", sig=sig))
+                elif L.sri_of(algo, files[cp]).split("-", 1)[1] not in cur["integrity"]:
+                    out.append(Failure("layout_content_mismatch", ci, f"the content at the address recorded for {key!r} does not have that digest", sig=sig))
+    if toks(rr.impl[ci])[0] == "ok":
+        rd = toks(rr.impl[ci + 2])
+        if rd[0] != "ok" or unhx(rd[1]) != t["data"]:
+            out.append(Failure("committed_not_readable", ci + 2, f"the commit answered ok but the key reads {' '.join(rd[:3])[:40]}", sig=sig))
+    return out
+
+
+def gen_removed_key_extraction_programs():
+    """C18 ('a missing key yields the not-found error'): two keys share their content, both are removed FULLY (the second
+    removal finds the content gone already), or the content is removed by address first; afterwards every extraction by
+    key answers the ENTRY-not-found error - not an I/O error - and creates nothing."""
+    from .props import EXTRACT_BY_KEY, SYNC_ONLY
+    progs = []
+    i = 0
+    d = b"content shared by two keys"
+    for rfl in "sa":
+        for how in ("both-fully", "hash-then-fully"):
+            k1, k2 = b"rk1-%d" % i, b"rk2-%d" % i
+            ops = [w_oneshot("s", "sha256", k1, d), w_oneshot("a", "sha256", k2, d)]
+            if how == "both-fully":
+                ops += [f"remove_fully {rfl} c0 {hx(k1)}", f"remove_fully {rfl} c0 {hx(k2)}"]
+            else:
+                ops += [f"remove_hash {rfl} c0 {sri_tok('sha256', d)}", f"remove_fully {rfl} c0 {hx(k2)}"]
+            ri = len(ops) - 1
+            checks = []
+            for name in EXTRACT_BY_KEY:
+                for fl in ("s",) if name in SYNC_ONLY else ("s", "a"):
+                    ops.append(f"{name} {fl} c0 {hx(k2)} out/x"); checks.append(len(ops) - 1)
+            ops.append(f"metadata s c0 {hx(k2)}"); mi = len(ops) - 1
+            ops.append("dump out")
+            progs.append(Program(f"removed-key-extraction-{how}-{rfl}", ops, tags={"removedkey": checks, "removal": ri, "meta": mi,
+                                                                                    "both_binaries": i % 2 == 0, "variety": ("removedkey", how, rfl)}))
+            i += 1
+    return progs
+
+
+def mon_removed_key_extraction(rr):
+    out = []
+    t = rr.prog.tags
+    if len(rr.impl) < len(rr.prog.ops):
+        return out
+    if toks(rr.impl[t["removal"]])[0] != "ok":
+        return out
+    sig0 = {"removal": rr.prog.ops[t["removal"]].split(" ")[1]}
+    if meta_of_line(rr.impl[t["meta"]]) is not None:
+        out.append(Failure("removed_key_found", t["meta"], "a key removed fully (ok) is still found by a lookup", sig=dict(sig0, op="metadata")))
+    for i in t["removedkey"]:
+        r = toks(rr.impl[i])
+        name = rr.prog.ops[i].split(" ")[0]
+        if r[:2] != ["err", "notfound"]:
+            out.append(Failure("missing_key_wrong_error", i, f"{name} by a key that was removed fully -> {' '.join(r[:3])}, expected the entry-not-found error",
+                               sig=dict(sig0, op=name, api=rr.prog.ops[i].split(' ')[1])))
+    files, links, dirs = parse_dump(rr.impl[-1])
+    if files or links:
+        out.append(Failure("extraction_created_file", len(rr.impl) - 1, "an extraction by a removed key created a file", sig=dict(sig0, op="dump")))
+    return out
